@@ -479,6 +479,8 @@ PARAM_VALUES = {
     's_plain': 'int16', 's_path': 'data/raw file.dat', 's_empty': '', 's_apos': "it's",
     's_dquote': 'say "hi"', 's_backslash_n': 'C:\\new\\table.dat', 's_backslash': 'a\\b',
     's_trailing_bs': 'dir\\', 's_hash': 'a#b', 's_percent': '100%s', 's_unicode': u'\xe9.dat',
+    'np_float64': np.float64(30000.0), 'np_int64': np.int64(385), 'np_bool': np.bool_(True),
+    'np_float32': np.float32(2.5),
 }
 PARAM_KEYS = ['dat_path', 'n_channels_dat', 'dtype', 'offset', 'sample_rate', 'hp_filtered']
 
@@ -507,15 +509,19 @@ def param_kind(vname):
         return 'str'
     if isinstance(v, list):
         return 'list'
+    if isinstance(v, np.generic):
+        return 'numpy-scalar'
     return type(v).__name__
 
 
 def run_params(case, acc, order):
     from phylib.utils._misc import write_python, read_python
     data = {k: PARAM_VALUES[v] for k, v in case['entries']}
+    # what must come back: NumPy scalars by value, as the Python number they denote
+    expected = {k: (v.item() if isinstance(v, np.generic) else v) for k, v in data.items()}
     acc.state()
     kinds = [param_kind(v) for _, v in case['entries']]
-    nontrivial = any(k.startswith('str') or k == 'list' for k in kinds)
+    nontrivial = any(k.startswith('str') or k in ('list', 'numpy-scalar') for k in kinds)
     with core.Scratch() as d:
         path = d / 'params.py'
         try:
@@ -527,18 +533,18 @@ def run_params(case, acc, order):
     if isinstance(back, BaseException):
         bad = sorted(set(kinds), key=lambda k: (not k.startswith('str,'), k))[0]
         sig = '%s/params/%s/%s' % (PROP, bad, type(back).__name__)
-    elif not deep_equal(back, data):
+    elif not deep_equal(back, expected):
         bad = 'dict'
         if isinstance(back, dict):
             for k, v in case['entries']:
-                if not deep_equal(back.get(k), data[k]):
+                if not deep_equal(back.get(k), expected[k]):
                     bad = param_kind(v)
                     break
         sig = '%s/params/%s/value' % (PROP, bad)
     acc.step(nontrivial, 'params:ok' if sig is None else 'params:bad')
     if sig:
         acc.violation(sig, core.make_record(
-            PROP, 'params', sig, case=case, expected=data,
+            PROP, 'params', sig, case=case, expected=expected,
             observed=describe(back) if isinstance(back, BaseException) else back), order)
 
 
